@@ -529,7 +529,7 @@ func runC18(c *C) {
 		for i := 0; i < 300 && runRound(in, s); i++ {
 		}
 	}
-	rounds := c.N(800, 40000)
+	rounds := c.N(800, 20000)
 	for i := 0; i < rounds && !c.Failed(); i++ {
 		in := genRound(c.Rand)
 		if i%7 == 0 {
@@ -561,7 +561,7 @@ func runC18(c *C) {
 		c.R.Notes = append(c.R.Notes, "race detector run skipped: "+v.RaceError)
 		c.Hist("race:skipped")
 	} else {
-		rr := c.N(150, 6000)
+		rr := c.N(150, 2500)
 		spec := fmt.Sprintf("c18:%d:%d", c.Seed, rr)
 		res, stderr, err := runChild(v.Race, spec, time.Duration(c.N(240, 1500))*time.Second)
 		if rep := raceReport(stderr); rep != "" {
